@@ -27,13 +27,14 @@ Let res := core (c_src c) (out_of c).
 
 Definition b_raised := match c_out c with None => true | Some _ => false end.
 Definition b_erase := negb (stmts_eqb (erase (c_src c) (out_of c)) (map erase_stmt (c_src c))).
-Definition b_respects := negb (c_ow c) && negb (respectsb (c_src c) res).
+(* the position-wise predicates need the alignment that the erase check establishes *)
+Definition b_respects := negb b_erase && negb (c_ow c) && negb (respectsb (c_src c) res).
 Definition f_sd := completeb e (excl_known simp) (c_src c) res.
 Definition f_s := completeb e excl_star (c_src c) res.
 Definition f_d := completeb e (excl_dotted simp) (c_src c) res.
-Definition b_other := negb f_sd.
-Definition b_star := f_sd && negb f_d.
-Definition b_dotted := f_sd && negb f_s.
+Definition b_other := negb b_erase && negb f_sd.
+Definition b_star := negb b_erase && f_sd && negb f_d.
+Definition b_dotted := negb b_erase && f_sd && negb f_s.
 Definition b_parse := negb (c_parse c).
 Definition b_idem := negb (c_idem c).
 Definition model := if c_conf c then None else apply (c_ow c) (c_stub c) (c_src c).
